@@ -17,6 +17,9 @@ const TYPES: [(&str, &[&str]); 3] = [
 ];
 
 pub fn decls(t: &str) -> String {
+    if t == CONST_TAG {
+        return String::new();
+    }
     format!(
         "record Bar {{ a: {t}, b: {t} }}\n\
          record Foo {{ x: Bar, y: Bar, z: {t} }}\n\
@@ -62,6 +65,9 @@ pub struct AggProg {
 
 /// All programs for element type `t` (helpers are emitted with their program)
 pub fn programs(t: &str) -> Vec<AggProg> {
+    if t == CONST_TAG {
+        return const_programs();
+    }
     let mut out: Vec<AggProg> = vec![];
     let mut add = |kind: String, body: String, helpers: String| {
         let name = format!("t{}", out.len());
@@ -191,5 +197,85 @@ pub fn programs(t: &str) -> Vec<AggProg> {
         "let e = if p < q { En.A(p, q) } else if p == q { En.B } else { En.C(Bar { a: p, b: q }) }; match e { A(x, y) => x * 2 - y, B => 77, C(b) => b.a - b.b * 2, D(f) => f.z, E(d) => d.g.a }".into(),
         String::new(),
     );
+    out
+}
+
+// ---------------------------------------------------------------- registered constants
+// Compound constants registered by the host (Option / Result / Verdict with a payload
+// behind the tag byte, next to a droppable payload in the other variant): reading one
+// makes the generated clone function take an offset into the constant's storage. On
+// the pinned tree the evaluator stops loudly there ("Don't offset global pointer"),
+// which is allowed; an evaluator that learns to do it must read the right bytes
+// (seeded change C20-6 applied the offset in `get` but not in `read_slice`).
+
+/// pseudo element type of this family: entry `fn tN(p: i32, q: i32) -> i32`
+pub const CONST_TAG: &str = "i32c";
+
+pub fn const_runtime() -> roto::Runtime<roto::NoCtx> {
+    use roto::{Verdict, library};
+    let mut rt = host::runtime();
+    rt.add(library! {
+        const RC_OK: Result<u8, roto::RotoString> = Ok(7);
+        const RC_ERR: Result<roto::RotoString, u8> = Err(9);
+        const RC_OKB: Result<bool, roto::RotoString> = Ok(true);
+        const RC_OK16: Result<u16, roto::RotoString> = Ok(300);
+        const RC_OK32: Result<u32, roto::RotoString> = Ok(70000);
+        const RC_OPT: Option<u8> = Some(5);
+        const RC_OPT32: Option<u32> = Some(70001);
+        const RC_VER: Verdict<u16, roto::RotoString> = Verdict::Accept(301);
+        const RC_REJ: Verdict<roto::RotoString, u8> = Verdict::Reject(11);
+        const RC_PLAIN: Result<u8, u8> = Err(13);
+    })
+    .expect("constants library registers");
+    rt
+}
+
+fn const_programs() -> Vec<AggProg> {
+    // (constant, type as written in the script, variant with the scalar payload, other variant, value)
+    let consts: [(&str, &str, &str, &str, &str); 10] = [
+        ("RC_OK", "Result[u8, String]", "Ok", "Err", "7"),
+        ("RC_ERR", "Result[String, u8]", "Err", "Ok", "9"),
+        ("RC_OKB", "Result[bool, String]", "Ok", "Err", "true"),
+        ("RC_OK16", "Result[u16, String]", "Ok", "Err", "300"),
+        ("RC_OK32", "Result[u32, String]", "Ok", "Err", "70000"),
+        ("RC_OPT", "u8?", "Some", "None", "5"),
+        ("RC_OPT32", "u32?", "Some", "None", "70001"),
+        ("RC_VER", "Verdict[u16, String]", "Accept", "Reject", "301"),
+        ("RC_REJ", "Verdict[String, u8]", "Reject", "Accept", "11"),
+        ("RC_PLAIN", "Result[u8, u8]", "Err", "Ok", "13"),
+    ];
+    let mut out: Vec<AggProg> = vec![];
+    let mut add = |kind: String, body: String, helpers: String| {
+        let name = format!("t{}", out.len());
+        let src = format!("{helpers}fn {name}(p: i32, q: i32) -> i32 {{ {body} }}\n").replace("NAME", &name);
+        out.push(AggProg { name, kind, src });
+    };
+    for (c, ty, v, o, val) in consts {
+        let other_arm = if o == "None" { "None => 0 - 2".to_string() } else { format!("{o}(e) => 0 - 2") };
+        // the payload decides between three results: right value, zero-ish value, anything else
+        let judge = |x: &str| {
+            if val == "true" {
+                format!("if {x} {{ p + 1 }} else {{ q + 100 }}")
+            } else {
+                format!("if {x} == {val} {{ p + 1 }} else if {x} == 0 {{ q + 100 }} else if {x} == 1 {{ q + 200 }} else {{ q + 300 }}")
+            }
+        };
+        let m = |scrutinee: &str| format!("match {scrutinee} {{ {v}(x) => {}, {other_arm} }}", judge("x"));
+        add(format!("const-direct {c}"), m(c), String::new());
+        add(format!("const-let {c}"), format!("let v = {c}; {}", m("v")), String::new());
+        add(format!("const-let-twice {c}"), format!("let v = {c}; let w = v; {}", m("w")), String::new());
+        add(
+            format!("const-argument {c}"),
+            format!("NAME_h({c}, p, q)"),
+            format!("fn NAME_h(r: {ty}, p: i32, q: i32) -> i32 {{ {} }}\n", m("r")),
+        );
+        add(
+            format!("const-returned {c}"),
+            m("NAME_g()"),
+            format!("fn NAME_g() -> {ty} {{ {c} }}\n"),
+        );
+        add(format!("const-eq {c}"), format!("if {c} == {c} {{ {} }} else {{ 0 - 3 }}", m(c)), String::new());
+        add(format!("const-in-record {c}"), format!("let r = {{ k: p, c: {c} }}; {}", m("r.c")), String::new());
+    }
     out
 }
